@@ -401,4 +401,90 @@ mod verif_kani_state {
         }
         kani::cover!(n > 0x14);
     }
+
+    // ------------------------------------------------------------------ K.hdr: SECOND BACK END for the loop-free header builders.
+    // Each harness states exactly the labelled Verus clause of one builder over its FULL argument domain (complete, not
+    // bounded).  The driver runs one only when the Verus proof of that builder did not go through (e.g. the setter
+    // calls were reordered and the bit-vector hint no longer matches): SUCCESSFUL => the clause is discharged by
+    // Kani/CBMC instead of Verus/Z3; FAILED => violation with Kani's counterexample.  (cones.toml [second_backend])
+    #[kani::proof]
+    fn k_hdr_transport() {
+        // C05.transport: [rsvd 0 | version 1, destination EID, own address, SOM 1 EOM 1 seq 0 TO 1 tag 0 = 0xC8], both halves
+        let a: u8 = kani::any();
+        let d: u8 = kani::any();
+        let mt = [0u8; 1];
+        let v = [any_vendor()];
+        let c = MCTPSMBusContext::new(a, &mt, &v);
+        havoc_cells(&c);
+        assert!(c.get_request().generate_transport_header(d).0 == [0x01, d, a, 0xC8]);
+        assert!(c.get_response().generate_transport_header(d).0 == [0x01, d, a, 0xC8]);
+        kani::cover!(d != a);
+    }
+    #[kani::proof]
+    fn k_hdr_smbus() {
+        // C04.smbus_hdr: [(dst & 0x7f) << 1, 0x0F, byte count 0 (set by finalise), ((own & 0x7f) << 1) | 1], both halves
+        let a: u8 = kani::any();
+        let d: u8 = kani::any();
+        let mt = [0u8; 1];
+        let v = [any_vendor()];
+        let c = MCTPSMBusContext::new(a, &mt, &v);
+        havoc_cells(&c);
+        let want = [(d & 0x7f) << 1, 0x0F, 0, ((a & 0x7f) << 1) | 1];
+        assert!(c.get_request().generate_smbus_header(d).0 == want);
+        assert!(c.get_response().generate_smbus_header(d).0 == want);
+        kani::cover!(d != a);
+    }
+    #[kani::proof]
+    fn k_hdr_ctrl_new() {
+        // C06.ctrl_hdr: [Rq<<7 | D<<6 | instance ID & 0x1f, command code]
+        let rq: bool = kani::any();
+        let dg: bool = kani::any();
+        let iid: u8 = kani::any();
+        let n: u8 = kani::any();
+        let cmd = CommandCode::from(n);
+        let code = if n <= 0x14 { n } else { 0xFF };
+        let h = MCTPControlMessageHeader::new(rq, dg, iid, cmd);
+        assert!(h.0 == [(if rq { 0x80u8 } else { 0 }) | (if dg { 0x40u8 } else { 0 }) | (iid & 0x1f), code]);
+        kani::cover!(rq && dg && iid > 0x1f);
+    }
+    #[kani::proof]
+    fn k_hdr_transport_new() {
+        // C05.th_new
+        let ver: u8 = kani::any();
+        assert!(crate::base_packet::MCTPTransportHeader::new(ver).0 == [ver & 0x0f, 0, 0, 0]);
+        kani::cover!(ver > 0x0f);
+    }
+    #[kani::proof]
+    fn k_hdr_body_new() {
+        // C05.mb_new (the integrity-check bit is refused by the builder: requires !ic)
+        let n: u8 = kani::any();
+        let m = MessageType::from(n);
+        let code = if n == 0 || n == 5 || n == 6 || n == 0x7E || n == 0x7F { n } else { 0xFF };
+        assert!(crate::base_packet::MCTPMessageBodyHeader::new(false, m).0 == [code & 0x7f]);
+        kani::cover!(code == 0xFF);
+    }
+    #[kani::proof]
+    fn k_hdr_vendor_new() {
+        // C08.pci_hdr, C08.iana_hdr: most-significant byte first
+        let p: u16 = kani::any();
+        assert!(crate::vendor_packets::PCIMessageFormat::new(p).0 == [(p >> 8) as u8, (p & 0xff) as u8]);
+        let i: u32 = kani::any();
+        assert!(crate::vendor_packets::IANAMessageFormat::new(i).0 == [(i >> 24) as u8, ((i >> 16) & 0xff) as u8, ((i >> 8) & 0xff) as u8, (i & 0xff) as u8]);
+        kani::cover!(p > 0xff && i > 0xffffff);
+    }
+    #[kani::proof]
+    fn k_hdr_routing_entry_new() {
+        // C06.routing_entry: [entry type & 0x0f, range size, first EID, physical address]
+        let t: u8 = kani::any();
+        kani::assume(t <= 3);
+        let ty = match t {
+            0 => RoutingInformationUpdateEntryType::SingleEndpointNotBridge,
+            1 => RoutingInformationUpdateEntryType::EIDRangeIncludeBridge,
+            2 => RoutingInformationUpdateEntryType::SingleEndpointBridge,
+            _ => RoutingInformationUpdateEntryType::EIDRangeNotIncludeBridge,
+        };
+        let (r, f, pa): (u8, u8, u8) = (kani::any(), kani::any(), kani::any());
+        assert!(SMBusRoutingInformationUpdateEntry::new(ty, r, f, pa).0 == [t & 0x0f, r, f, pa]);
+        kani::cover!(t == 3);
+    }
 }
